@@ -48,7 +48,7 @@ def nested(has, v):
     return d
 
 
-EXTRAS = [{}, {'GROUPING_PRMS': {'height_scale_range': [500, 100]}, 'EXCLUDE_FOR_BASE_HEIGHT_CALC': ['zz', 'a']},
+EXTRAS = [{}, {'EXCLUDE_FOR_BASE_HEIGHT_CALC': 'a', 'MAX_HOLES_OKTA8': 0}, {'GROUPING_PRMS': {'height_scale_range': [500, 100]}, 'EXCLUDE_FOR_BASE_HEIGHT_CALC': ['zz', 'a']},
           {'MIN_SEP_LIMS': [10000], 'LAYERING_PRMS': {'gmm_kwargs': {'scores': 'AIC'}}, 'GROUPING_PRMS': {'height_scale_range': [300, 300]}},
           {'LOWESS': {'frac': 0.5}, 'EXCLUDE_FOR_BASE_HEIGHT_CALC': []}]
 
@@ -187,7 +187,13 @@ def params_walk(walk):
                     elif op == 'resetall':
                         ampycloud.reset_prms()
                     elif op == 'reset':
-                        ampycloud.reset_prms([{'msa': 'MSA', 'sep': 'MIN_SEP_VALS', 'slc': 'SLICING_PRMS'}[x] for x in has])
+                        names = [{'msa': 'MSA', 'sep': 'MIN_SEP_VALS', 'slc': 'SLICING_PRMS'}[x] for x in has]
+                        if not names:
+                            ampycloud.reset_prms('MSA_HIT_BUFFER')       # a name outside the modelled paths, as a plain string
+                        elif len(names) == 1 and k % 2:
+                            ampycloud.reset_prms(names[0])               # the documented plain-string form
+                        else:
+                            ampycloud.reset_prms(names)
                     elif op == 'setcaller':
                         callers[u] = nested(has, v)
                         # leaves outside the modelled paths, lists in an unusual order included (driver's choice, not an abstract action)
